@@ -80,6 +80,11 @@ def trunc (b : B64) : Nat :=
 def toBits (b : B64) : Nat :=
   if b.m = 0 then 0 else (b.e + 1075).toNat * 2 ^ 52 + (b.m - 2 ^ 52)
 
+/-- the model value with a given bit pattern (positive normal numbers; biased exponent 0 ↦ zero) -/
+def ofBits (n : Nat) : B64 :=
+  let ex : Nat := (n / 2 ^ 52) % 2048
+  if ex = 0 then zero else ⟨2 ^ 52 + n % 2 ^ 52, (ex : Int) - 1075⟩
+
 /-- exact comparison `a < b` of two model values (both ≥ 0) -/
 def lt (a b : B64) : Bool :=
   -- a.m·2^a.e < b.m·2^b.e
@@ -100,6 +105,9 @@ def lenDP (v : Variant) (L : Nat) : Nat :=
   match v with
   | .asCoded => trunc (fdiv one (qSampler L))
   | .repaired => L
+
+/-- the samplers' default `steps = int(1 / sample_rate)` for an arbitrary positive rate -/
+def stepsOfRate (q : B64) : Nat := trunc (fdiv one q)
 
 /-- `make_private`: `sample_rate = 1 / len(dp_loader)` handed to the accountant -/
 def qAcc (v : Variant) (L : Nat) : B64 := fdiv one (ofNat (lenDP v L))
